@@ -135,7 +135,7 @@ func runC12(cfg *vh.Config) error {
 	res := vh.NewResult("C12", cfg.Seed)
 	res.Rule = "declarations: integer (4 formats; minimum/maximum absent, 0, format min/max, near them; exclusive flags absent/false/true), string (min/max length absent/0/1-6, pattern incl. patterns RE2 rejects), bytes, bool const, enum in/not-in (short and prefixed names), key (none/informal/custom incl. ill-formed patterns/uuid/id62, primary key), float and message-typed fields; each plain, required, optional, or as array (min/max items absent/0/1-6, unique absent/false/true, also on float and message items) or map; values: below/at/above every bound, multi-byte strings, (non-)matching patterns, undefined enum numbers, absent vs zero, +0/-0/NaN, lists with and without duplicates (messages with equal and different content); non-trivial = distinct declaration carrying at least one rule, required flag or format"
 	cf := &vh.CasesFile{
-		Header: "From Coq Require Import String List NArith ZArith.\nFrom J5V.lib Require Import Outcome.\nFrom J5V.model Require Import RulesDecl RulesRead RulesNested RulesNestedSem RulesOneof RulesCorr.",
+		Header: "From Coq Require Import String List NArith ZArith.\nFrom J5V.lib Require Import Outcome.\nFrom J5V.model Require Import RulesDecl RulesRead RulesNested RulesNestedSem RulesOneof RulesCompile RulesCorr.",
 		Type:   "c12case",
 		Check:  "c12_check",
 	}
@@ -249,12 +249,16 @@ func runC12(cfg *vh.Config) error {
 			if p.Class != "" {
 				res.Count("class:" + p.Class)
 			}
-			dterm := p.P.Coq()
+			dterm := p.P.XCoq()
 			if p.P.Req || p.P.Opt || p.P.PK != PSingle || p.P.T.Int != nil || p.P.T.Str != nil || p.P.T.Len != nil || p.P.T.HasBool || p.P.T.Enum != nil || (p.P.T.Kind == TKey && p.P.T.KF != KNone) {
 				distinct.Add(dterm)
 			}
 			var pairs []string
 			var implVals []map[string]any
+			if ur.ok[i] && strings.HasPrefix(p.Class, "refused-") {
+				res.Fail(vh.Failure{Case: caseNo, Stream: "compile", Sig: "C12 " + p.Class + ": a declaration whose rule buf.validate cannot enforce compiles (multipleOf / uniqueItems on messages / a pattern regexp.Compile refuses must be compile errors)",
+					Clause: "a compiled constraint accepts exactly what the declared rules allow", Input: map[string]any{"j5s": p.P.J5S(env)}, Got: ur.obs[i]})
+			}
 			if ur.ok[i] {
 				res.Count("compiled")
 				fd := ur.md.Fields().Get(i)
@@ -294,7 +298,7 @@ func runC12(cfg *vh.Config) error {
 				}
 			} else {
 				res.Count("compile-failed")
-				if p.Class != "compile-error" {
+				if !refused(p.Class) {
 					res.Count("compile-failed-unexpected")
 					res.Fail(vh.Failure{Case: caseNo, Stream: "compile", Sig: "C12 valid field declaration does not compile: " + firstWords(ur.note, 10),
 						Clause: "for all valid j5s field declarations (the declaration compiles)", Input: map[string]any{"j5s": p.P.J5S(env)}, Got: ur.note})
@@ -310,6 +314,8 @@ func runC12(cfg *vh.Config) error {
 		}
 	}
 
+	genMapExt = true
+	defer func() { genMapExt = false }()
 	for u := 0; u < nUnits; u++ {
 		genAST = r.Chance(25)
 		if genAST {
@@ -334,7 +340,7 @@ func runC12(cfg *vh.Config) error {
 		var together []genDecl
 		var units [][]genDecl
 		for _, p := range props {
-			if p.Class == "compile-error" || p.Class == "unevaluable-pattern" {
+			if refused(p.Class) {
 				units = append(units, []genDecl{p})
 			} else {
 				together = append(together, p)
@@ -349,23 +355,11 @@ func runC12(cfg *vh.Config) error {
 				fields(ur)
 			}
 		}
-		// ... and once more inside a message with the others, for the whole-message stream only
-		for _, p := range props {
-			if p.Class == "unevaluable-pattern" && len(together) > 0 {
-				mixed := append([]genDecl{p}, together...)
-				if len(mixed) > 4 {
-					mixed = mixed[:4]
-				}
-				for _, ur := range compileProps(env, mixed) {
-					messages(ur)
-				}
-				break
-			}
-		}
 	}
 	// ---- the regular-expression engine on its own: the Coq parser + derivative matcher
 	// against Go's regexp (which CEL's matches() uses), on expressions of the fragment,
 	// on ill-formed ones, and on texts around their languages
+	genMapExt = false
 	rr := cfg.R.Fork("C12Re")
 	for i, n := 0, cfg.Scale(260, 4000); i < n; i++ {
 		var pat string
